@@ -23,6 +23,8 @@ CLAIMS = {
          "Decides race-freedom of dst's own shared state (resolver cache, package-level tables) and absence of map-order dependence in the in-scope packages; the standard library's internals are trusted.", "4 C16"),
  "C17": ("error-discipline rule over all error-returning call sites + store classification + CFG reachability in updateImports (no store before an error return)",
          "Decides that resolver/parse errors surface and that no tree is modified on a failing path; retry equality follows only together with C16.", "4 C17"),
+ "C18": ("ordering analysis of the four object/scope converters (memo lookup, registration before recursion, field and type-switch-arm completeness) + normal-form equality of resolve.go/scope.go with GOROOT go/ast modulo position erasure",
+         "Decides the structural conditions under which the memoised conversion is a graph isomorphism and that the package builder is upstream's code without positions; concrete graphs are not evaluated.", "4 C18"),
  "C19": ("abstract interpretation of the five list methods over a two-atom sequence domain",
          "Decides list semantics and non-aliasing for every call sequence (methods are functions of old contents and argument).", "4 C19"),
  "C20": ("who-may-call rule for file-system mutators + ordering/dataflow rule on (*Package).save",
@@ -32,7 +34,7 @@ CLAIMS = {
 NOT_APPLICABLE = {
  "C10": "meaning preservation of moved code needs a type checker run over output programs; no static rule over dst's source bounds it (DESIGN.md 4, C10)",
 }
-PENDING = ["C02", "C05", "C07", "C08", "C09", "C15", "C18"]
+PENDING = ["C02", "C05", "C07", "C08", "C09", "C15"]
 
 props = [json.loads(l)["id"] for l in open("/verif/properties.jsonl")]
 checks = []
